@@ -57,13 +57,13 @@ Proof.
 Qed.
 
 Theorem remove_KK s i :
-  J (fst s) -> KK (fst s) -> CP (fst s) -> w_err (fst (remove_item F s i)) = None ->
+  J (fst s) -> KK (fst s) -> CP (fst s) -> LS (fst s) -> w_err (fst (remove_item F s i)) = None ->
   KK (fst (remove_item F s i)) /\ w_srcs (fst (remove_item F s i)) = w_srcs (fst s).
 Proof.
-  intros Js K Cp He. rewrite F_eq in *.
+  intros Js K Cp Ls He. rewrite F_eq in *.
   destruct (get_item (fst s) i) as [it|] eqn:Hi.
   - destruct (direct_dec it) as [D|D].
-    + destruct (remove_dir 8 s i it Js K Cp Hi D He) as (K' & S' & _). now split.
+    + destruct (remove_dir 8 s i it Js K Cp Ls Hi D He) as (K' & S' & _). now split.
     + destruct (remove_leaf 10 s i it K Hi D He) as (K' & (S' & _) & _). now split.
   - exfalso. apply (remove_sticky_unload 11 s i) in He. revert He. cbn [unload]. rewrite Hi.
     unfold lift. cbn [fst]. intros H. exact (err_fail_none _ _ H).
@@ -73,27 +73,66 @@ Lemma racklike_some p : racklike_of p <> None -> racklike_of p = Some p.
 Proof. destruct p; cbn; congruence. Qed.
 
 (* the invariant carried through the operations *)
-Definition KJ (w : world) : Prop := RJ w /\ KK w /\ FLATs w /\ CP w.
-Lemma KJ_same_is w w' : same_is w w' -> KJ w -> KJ w'.
+Definition KJ (w : world) : Prop := RJ w /\ KK w /\ FLATs w /\ CP w /\ LS w.
+
+(* same items, ids, sources, and every fit sees the source it saw *)
+Definition same_isf (w w' : world) : Prop := same_is w w' /\ same_src w w'.
+Lemma same_isf_refl w : same_isf w w. Proof. split; [apply same_is_refl|apply same_src_refl]. Qed.
+Lemma same_isf_trans a b c : same_isf a b -> same_isf b c -> same_isf a c.
+Proof. intros (A1 & A2) (B1 & B2). split; [eapply same_is_trans; eauto|eapply same_src_trans; eauto]. Qed.
+Lemma same_src_fail w e : same_src w (fail w e).
+Proof. intros f. unfold fail. destruct (w_err w); reflexivity. Qed.
+Lemma same_src_upd_fit w f g : (forall ft, f_solsys (g ft) = f_solsys ft) -> same_src w (upd_fit w f g).
 Proof.
-  intros S (R & K & Fl & Cp). split; [eapply RJ_same_is; eauto|split; [eapply KK_same_is; eauto|split]].
+  intros Hg. unfold upd_fit. destruct (get_fit w f) as [ft|] eqn:Gf; [|apply same_src_fail].
+  intros f'. unfold fit_source_id, fit_solsys, get_fit, put_fit. cbn [w_fits set_fits w_ss].
+  destruct (Nat.eq_dec f' f) as [->|N].
+  - rewrite al_get_set_same. unfold get_fit in Gf. rewrite Gf. now rewrite Hg.
+  - rewrite al_get_set_other by congruence. reflexivity.
+Qed.
+Lemma same_isf_upd_fit w f g : (forall ft, f_solsys (g ft) = f_solsys ft) -> same_isf w (upd_fit w f g).
+Proof. intros Hg. split; [apply same_is_upd_fit|now apply same_src_upd_fit]. Qed.
+Lemma same_isf_set_rack s f k l : same_isf (fst s) (fst (set_rack s f k l)).
+Proof. unfold set_rack, lift, put_rack. cbn [fst]. apply same_isf_upd_fit. intros ft. destruct k; reflexivity. Qed.
+Lemma same_isf_put_setc w f k l : same_isf w (put_setc w f k l).
+Proof. unfold put_setc. apply same_isf_upd_fit. intros ft. destruct k; reflexivity. Qed.
+Lemma same_isf_put_skillmap w f m : same_isf w (put_skillmap w f m).
+Proof. unfold put_skillmap. apply same_isf_upd_fit. intros ft. reflexivity. Qed.
+Lemma same_isf_set_slot w f k v : same_isf w (upd_fit w f (fun ft => fit_set_slot ft k v)).
+Proof. apply same_isf_upd_fit. intros ft. destruct k; reflexivity. Qed.
+Lemma same_isf_fleet_link w fl l f v :
+  same_isf w (upd_fit (set_fleets w (al_set neqb (w_fleets w) fl l)) f (fun ft => fit_set_fleet ft v)).
+Proof.
+  eapply same_isf_trans; [|apply same_isf_upd_fit; intros ft; reflexivity].
+  split; [repeat split|intros f0; reflexivity].
+Qed.
+Lemma LS_same_isf w w' : same_isf w w' -> LS w -> LS w'.
+Proof.
+  intros (S & Ss) L. apply (LS_frame w w' L Ss). intros j jit' Gj Dj. right. exists jit'.
+  rewrite <- (same_is_get _ _ j S). auto.
+Qed.
+Lemma KJ_same_is w w' : same_isf w w' -> KJ w -> KJ w'.
+Proof.
+  intros Sf (R & K & Fl & Cp & Ls). pose proof (proj1 Sf) as S.
+  split; [eapply RJ_same_is; eauto|split; [eapply KK_same_is; eauto|split; [|split]]].
   - apply (FLATs_srcs w w'); [apply S|exact Fl].
   - apply (CP_same_l w w'); [apply same_l_items; apply S|exact Cp].
+  - now apply (LS_same_isf w w').
 Qed.
 
 Theorem enter_KJ (s s1 : st) i p it :
-  KJ (fst s) -> same_is (fst s) (fst s1) -> get_item (fst s) i = Some it -> direct it ->
+  KJ (fst s) -> same_isf (fst s) (fst s1) -> get_item (fst s) i = Some it -> direct it ->
   has_container (fst s) i = false -> racklike_of p <> None ->
   w_err (fst (add_item F s1 i p)) = None -> KJ (fst (add_item F s1 i p)).
 Proof.
-  intros (R & K & Fl & Cp) S Hi D Hc Hp He.
+  intros (R & K & Fl & Cp & Ls) Sf Hi D Hc Hp He. pose proof (proj1 Sf) as S.
   assert (R1 : RJ (fst (add_item F s1 i p))) by (eapply (enter_RJ s); eauto).
-  pose proof (KJ_same_is _ _ S (conj R (conj K (conj Fl Cp)))) as (R' & K' & Fl' & Cp').
+  pose proof (KJ_same_is _ _ Sf (conj R (conj K (conj Fl (conj Cp Ls))))) as (R' & K' & Fl' & Cp' & Ls').
   assert (Hi1 : get_item (fst s1) i = Some it) by (now rewrite (same_is_get _ _ i S)).
   assert (Hl : i_loaded it = None) by (apply (no_container_unloaded (fst s) i it (proj1 R) Hi D Hc)).
   rewrite F_eq in *.
-  destruct (add_dir 8 s1 i it p (proj2 R') K' Cp' Hi1 D Hl (racklike_some p Hp) (Fl' (i_tid it)) He) as (K2 & S2 & _ & Cp2).
-  split; [exact R1|split; [exact K2|split; [|exact Cp2]]]. apply (FLATs_srcs (fst s1)); [exact S2|exact Fl'].
+  destruct (add_dir 8 s1 i it p (proj2 R') K' Cp' Ls' Hi1 D Hl (racklike_some p Hp) (Fl' (i_tid it)) He) as (K2 & S2 & _ & Cp2 & Ls2).
+  split; [exact R1|split; [exact K2|split; [|split; [exact Cp2|exact Ls2]]]]. apply (FLATs_srcs (fst s1)); [exact S2|exact Fl'].
 Qed.
 
 (* what fit containers list exists and is held directly *)
@@ -116,10 +155,11 @@ Theorem remove_KJ s i :
   KJ (fst s) -> (exists it, get_item (fst s) i = Some it /\ direct it) ->
   w_err (fst (remove_item F s i)) = None -> KJ (fst (remove_item F s i)).
 Proof.
-  intros (R & K & Fl & Cp) (it & Hi & D) He. destruct (remove_KK s i (proj2 R) K Cp He) as (K2 & S2).
-  split; [now apply remove_RJ|split; [exact K2|split]].
+  intros (R & K & Fl & Cp & Ls) (it & Hi & D) He. destruct (remove_KK s i (proj2 R) K Cp Ls He) as (K2 & S2).
+  split; [now apply remove_RJ|split; [exact K2|split; [|split]]].
   - apply (FLATs_srcs (fst s)); [exact S2|exact Fl].
-  - rewrite F_eq in *. now destruct (remove_dir 8 s i it (proj2 R) K Cp Hi D He) as (_ & _ & _ & Cp').
+  - rewrite F_eq in *. now destruct (remove_dir 8 s i it (proj2 R) K Cp Ls Hi D He) as (_ & _ & _ & Cp' & _).
+  - rewrite F_eq in *. now destruct (remove_dir 8 s i it (proj2 R) K Cp Ls Hi D He) as (_ & _ & _ & _ & Ls').
 Qed.
 
 (* ------------------------------------------------------------------ *)
@@ -142,7 +182,7 @@ Lemma rack_enter_KJ s f k i l2 c :
 Proof.
   intros R Hc Ha Hn He. destruct (cls_of_some' _ _ _ Hc) as (it & Hi & Ec).
   eapply (enter_KJ s); eauto.
-  - apply same_is_set_rack.
+  - apply same_isf_set_rack.
   - eapply rack_accepts_direct; eauto.
   - discriminate.
 Qed.
@@ -165,9 +205,9 @@ Proof.
   - destruct (cls_of (fst s) i) as [c|] eqn:Hc; cbn [negb]; [|auto].
     destruct (rack_accepts k c) eqn:Ha; cbn [negb]; [|auto].
     destruct (has_container (fst s) i) eqn:Hn; cbn [fst].
-    + intros _. eapply KJ_same_is; [apply same_is_set_rack|exact R].
+    + intros _. eapply KJ_same_is; [apply same_isf_set_rack|exact R].
     + now apply (rack_enter_KJ s f k i _ c).
-  - cbn [negb fst]. intros _. eapply KJ_same_is; [apply same_is_set_rack|exact R].
+  - cbn [negb fst]. intros _. eapply KJ_same_is; [apply same_isf_set_rack|exact R].
 Qed.
 
 Theorem rack_place_KJ s f k idx i :
@@ -194,7 +234,7 @@ Proof.
                   end)))).
   { intros l1. destruct (norm_index (length l1) idx) as [n|]; [|auto].
     destruct (has_container (fst s) i) eqn:Hn; cbn [fst].
-    - intros _. eapply KJ_same_is; [apply same_is_set_rack|exact R].
+    - intros _. eapply KJ_same_is; [apply same_isf_set_rack|exact R].
     - now apply (rack_enter_KJ s f k i _ c). }
   destruct (norm_index (length l) idx) as [n|] eqn:En.
   - destruct (nth_error l n) as [[j|]|]; [auto| |]; specialize (P l); rewrite En in P; exact P.
@@ -209,7 +249,7 @@ Proof.
   destruct (rack_accepts k c) eqn:Ha; cbn [negb]; [|auto].
   destruct (equip_list _ i) as [l1 n].
   destruct (has_container (fst s) i) eqn:Hn; cbn [fst].
-  - intros _. eapply KJ_same_is; [apply same_is_set_rack|exact R].
+  - intros _. eapply KJ_same_is; [apply same_isf_set_rack|exact R].
   - now apply (rack_enter_KJ s f k i _ c).
 Qed.
 
@@ -226,9 +266,9 @@ Proof.
   intros R Ld. unfold rack_remove.
   destruct (rack_locate _ a) as [[n v]|e] eqn:L; [|auto]. cbn [fst]. destruct v as [i|].
   - intros He. pose proof (sticky_set_rack _ _ _ _ He) as E1.
-    eapply KJ_same_is; [apply same_is_set_rack|]. apply remove_KJ; [exact R| |exact E1].
+    eapply KJ_same_is; [apply same_isf_set_rack|]. apply remove_KJ; [exact R| |exact E1].
     apply (Ld (PRack f k)). rewrite members_rack. apply (nth_rack_items _ n). now apply (rack_locate_nth _ a).
-  - intros _. eapply KJ_same_is; [apply same_is_set_rack|exact R].
+  - intros _. eapply KJ_same_is; [apply same_isf_set_rack|exact R].
 Qed.
 
 Theorem rack_free_KJ s f k a :
@@ -237,7 +277,7 @@ Proof.
   intros R Ld. unfold rack_free.
   destruct (rack_locate _ a) as [[n [i|]]|e] eqn:L; auto. cbn [fst].
   intros He. pose proof (sticky_set_rack _ _ _ _ He) as E1.
-  eapply KJ_same_is; [apply same_is_set_rack|]. apply remove_KJ; [exact R| |exact E1].
+  eapply KJ_same_is; [apply same_isf_set_rack|]. apply remove_KJ; [exact R| |exact E1].
   apply (Ld (PRack f k)). rewrite members_rack. apply (nth_rack_items _ n). now apply (rack_locate_nth _ a).
 Qed.
 
@@ -264,7 +304,7 @@ Theorem rack_clear_KJ s f k :
   KJ (fst s) -> LD (fst s) -> w_err (fst (fst (rack_clear s f k))) = None -> KJ (fst (fst (rack_clear s f k))).
 Proof.
   intros R Ld. unfold rack_clear. cbn [fst]. intros He. pose proof (sticky_set_rack _ _ _ _ He) as E1.
-  eapply KJ_same_is; [apply same_is_set_rack|]. apply (remove_fold_KJ (fun v => v)); [exact R| |exact E1].
+  eapply KJ_same_is; [apply same_isf_set_rack|]. apply (remove_fold_KJ (fun v => v)); [exact R| |exact E1].
   intros v i Iv ->. apply (Ld (PRack f k)). rewrite members_rack. unfold rack_items.
   apply in_flat_map. exists (Some i). split; [exact Iv|now left].
 Qed.
@@ -280,11 +320,11 @@ Proof.
   destruct (set_accepts k c) eqn:Ha; cbn [negb]; [|auto].
   destruct (has_container (fst s) i) eqn:Hn.
   - intros _. destruct (mem neqb _ i); cbn [fst]; unfold lift; cbn [fst].
-    + eapply KJ_same_is; [apply same_is_put_setc|exact R].
-    + eapply KJ_same_is; [|exact R]. eapply same_is_trans; apply same_is_put_setc.
+    + eapply KJ_same_is; [apply same_isf_put_setc|exact R].
+    + eapply KJ_same_is; [|exact R]. eapply same_isf_trans; apply same_isf_put_setc.
   - cbn [fst]. destruct (cls_of_some' _ _ _ Hc) as (it & Hi & Ec).
     eapply (enter_KJ s); eauto.
-    + unfold lift. cbn [fst]. apply same_is_put_setc.
+    + unfold lift. cbn [fst]. apply same_isf_put_setc.
     + eapply set_accepts_direct; eauto.
     + discriminate.
 Qed.
@@ -297,12 +337,12 @@ Proof.
   destruct (set_accepts SeSkills (i_cls it)); cbn [negb]; [|auto].
   destruct (al_mem zeqb _ (i_tid it)); [auto|].
   set (s1 := lift s _).
-  assert (R1 : KJ (fst s1)) by (eapply KJ_same_is; [|exact R]; unfold s1, lift; cbn [fst]; apply same_is_put_skillmap).
+  assert (R1 : KJ (fst s1)) by (eapply KJ_same_is; [|exact R]; unfold s1, lift; cbn [fst]; apply same_isf_put_skillmap).
   pose proof (itemset_add_KJ s1 f SeSkills i R1) as H.
   destruct (itemset_add s1 f SeSkills i) as [s2 r]. cbn [fst] in H.
   destruct r; cbn [fst]; try exact H.
   unfold lift. cbn [fst]. intros He. pose proof (sticky_put_skillmap _ _ _ He) as E2.
-  eapply KJ_same_is; [apply same_is_put_skillmap|now apply H].
+  eapply KJ_same_is; [apply same_isf_put_skillmap|now apply H].
 Qed.
 
 Theorem set_remove_op_KJ s f k i :
@@ -316,11 +356,11 @@ Proof.
   set (s3 := lift s2 (fun w => put_setc w f k (set_rm neqb (get_setc w f k) i))).
   assert (H3 : w_err (fst s3) = None -> KJ (fst s3)).
   { intros E3. unfold s3, lift in *. cbn [fst] in *. pose proof (sticky_put_setc _ _ _ _ E3) as E2.
-    eapply KJ_same_is; [apply same_is_put_setc|]. now apply remove_KJ. }
+    eapply KJ_same_is; [apply same_isf_put_setc|]. now apply remove_KJ. }
   destruct k; try exact H3.
   destruct (get_item (fst s3) i) as [it|]; [|exact H3]. cbn [fst]. unfold lift at 1. cbn [fst].
   intros He. pose proof (sticky_put_skillmap _ _ _ He) as E3.
-  eapply KJ_same_is; [apply same_is_put_skillmap|now apply H3].
+  eapply KJ_same_is; [apply same_isf_put_skillmap|now apply H3].
 Qed.
 
 Theorem skill_del_op_KJ s f tid :
@@ -337,11 +377,11 @@ Proof.
   set (s3 := lift s2 (fun w => put_setc w f k [])).
   assert (H3 : w_err (fst s3) = None -> KJ (fst s3)).
   { intros E3. unfold s3, lift in *. cbn [fst] in *. pose proof (sticky_put_setc _ _ _ _ E3) as E2.
-    eapply KJ_same_is; [apply same_is_put_setc|]. apply (remove_fold_KJ (fun v => Some v)); [exact R| |exact E2].
+    eapply KJ_same_is; [apply same_isf_put_setc|]. apply (remove_fold_KJ (fun v => Some v)); [exact R| |exact E2].
     intros v i Iv [= <-]. apply (Ld (PSet f k)). now rewrite members_set. }
   destruct k; try exact H3. cbn [fst]. unfold lift at 1. cbn [fst].
   intros He. pose proof (sticky_put_skillmap _ _ _ He) as E3.
-  eapply KJ_same_is; [apply same_is_put_skillmap|now apply H3].
+  eapply KJ_same_is; [apply same_isf_put_skillmap|now apply H3].
 Qed.
 
 
@@ -367,7 +407,7 @@ Proof.
       pose proof (direct_of_cls _ _ o ito Ho Do Ck x Hx) as Dx. split; [exact Dx|]. now apply (P1 x Hx Dx).
     - split; [exact R|split; [intros j c E; exact E|intros o x [=]]]. }
   set (s2 := lift s1 (fun w => upd_fit w f (fun ft => fit_set_slot ft k new))).
-  assert (S12 : same_is (fst s1) (fst s2)) by (unfold s2, lift; cbn [fst]; apply same_is_upd_fit).
+  assert (S12 : same_isf (fst s1) (fst s2)) by (unfold s2, lift; cbn [fst]; apply same_isf_set_slot).
   assert (K12 : sticky (fst s1) (fst s2)) by (unfold s2, lift; cbn [fst]; apply sticky_upd_fit).
   destruct new as [i|].
   2:{ cbn [fst]. intros He. pose proof (K12 He) as E1. eapply KJ_same_is; [exact S12|]. now apply H1. }
@@ -375,8 +415,8 @@ Proof.
   destruct (has_container (fst s2) i) eqn:Hh.
   - (* roll-back *)
     set (s3 := lift s2 (fun w => upd_fit w f (fun ft => fit_set_slot ft k old))).
-    assert (S13 : same_is (fst s1) (fst s3)).
-    { eapply same_is_trans; [exact S12|]. unfold s3, lift. cbn [fst]. apply same_is_upd_fit. }
+    assert (S13 : same_isf (fst s1) (fst s3)).
+    { eapply same_isf_trans; [exact S12|]. unfold s3, lift. cbn [fst]. apply same_isf_set_slot. }
     assert (K13 : sticky (fst s1) (fst s3)).
     { eapply sticky_trans; [exact K12|]. unfold s3, lift. cbn [fst]. apply sticky_upd_fit. }
     destruct old as [o|] eqn:Eo.
@@ -394,7 +434,7 @@ Proof.
     destruct (cls_of_some' _ _ _ (Ck _ _ Hc)) as (it & Hi & Ec).
     eapply (enter_KJ s1 s2); eauto.
     + eapply slot_accepts_direct; eauto.
-    + rewrite <- Hh. symmetry. now apply has_container_same_is.
+    + rewrite <- Hh. symmetry. apply has_container_same_is. exact (proj1 S12).
     + discriminate.
 Qed.
 
@@ -508,15 +548,32 @@ Proof.
     + now apply (C3 x xit').
 Qed.
 
+(* LS after the charge slot of m was given a new occupant: directly held items keep container reference and
+   loaded flag; the old and the new occupant are charges *)
+Lemma LS_relink w w' m mit (new : option nat) :
+  LS w -> same_src w w' -> get_item w m = Some mit -> direct mit ->
+  (forall j, j <> m -> Some j <> i_charge mit -> Some j <> new -> get_item w' j = get_item w j) ->
+  (exists mit', get_item w' m = Some mit' /\ i_loaded mit' = i_loaded mit /\ i_cont mit' = i_cont mit) ->
+  (forall o oit', Some o = i_charge mit \/ Some o = new -> o <> m -> get_item w' o = Some oit' -> ~ direct oit') ->
+  LS w'.
+Proof.
+  intros L Ss Hm Dm Fr (mit' & Gm' & El & Ec) Hch. apply (LS_frame w w' L Ss). intros j jit' Gj Dj. right.
+  destruct (Nat.eq_dec j m) as [->|Nj].
+  - rewrite Gm' in Gj. injection Gj as <-. exists mit. split; [exact Hm|split; [exact Dm|split; [symmetry; exact El|symmetry; exact Ec]]].
+  - destruct (option_eq_dec (Some j) (i_charge mit)) as [E|N1]; [exfalso; now apply (Hch j jit' (or_introl E) Nj Gj)|].
+    destruct (option_eq_dec (Some j) new) as [E|N2]; [exfalso; now apply (Hch j jit' (or_intror E) Nj Gj)|].
+    exists jit'. rewrite <- (Fr j Nj N1 N2). auto.
+Qed.
+
 Theorem charge_set_op_KJ s m new :
   KJ (fst s) -> (forall mit, get_item (fst s) m = Some mit -> direct mit) ->
   w_err (fst (fst (charge_set_op s m new))) = None -> KJ (fst (fst (charge_set_op s m new))).
 Proof.
-  intros (R & K & Fl & Cp) Hdm He.
+  intros (R & K & Fl & Cp & Ls) Hdm He.
   split; [now apply charge_set_op_RJ|].
-  revert He. unfold charge_set_op. destruct (get_item (fst s) m) as [mit|] eqn:Hm; [|intros _; split; [exact K|split; [exact Fl|exact Cp]]].
+  revert He. unfold charge_set_op. destruct (get_item (fst s) m) as [mit|] eqn:Hm; [|intros _; split; [exact K|split; [exact Fl|split; [exact Cp|exact Ls]]]].
   specialize (Hdm mit eq_refl). unfold descriptor_set. cbv beta.
-  match goal with |- context[negb ?b] => destruct b eqn:Hok end; cbn [negb]; [|intros _; split; [exact K|split; [exact Fl|exact Cp]]].
+  match goal with |- context[negb ?b] => destruct b eqn:Hok end; cbn [negb]; [|intros _; split; [exact K|split; [exact Fl|split; [exact Cp|exact Ls]]]].
   pose proof (proj2 R) as Js.
   set (old := i_charge mit).
   set (s1 := match old with Some o => remove_item F s o | None => s end).
@@ -526,18 +583,18 @@ Proof.
                (forall c cit, get_item (fst s1) c = Some cit -> i_cont cit <> Some (PCharge m)) /\
                cls_kept (fst s) (fst s1) /\
                (forall j, Some j <> old -> get_item (fst s1) j = get_item (fst s) j) /\
-               (forall o, old = Some o -> exists o', get_item (fst s1) o = Some o' /\ i_charge o' = None /\ i_autos o' = [])).
+               (forall o, old = Some o -> exists o', get_item (fst s1) o = Some o' /\ i_charge o' = None /\ i_autos o' = [] /\ ~ direct o')).
   { intros E1. subst s1. destruct old as [o|] eqn:Eo.
     - assert (Co : cls_of (fst s) o = Some CCharge) by (destruct Js as (_ & _ & _ & J5); apply (J5 m mit o Hm Eo)).
       destruct (cls_of_some' _ _ _ Co) as (oit & Go & Eco).
       assert (Do : ~ direct oit) by (apply direct_childcls; right; exact Eco).
       rewrite F_eq in *.
-      destruct (remove_leaf 10 s o oit K Go Do E1) as (K1 & U1 & o' & Go' & Lo' & Co' & _ & Cho' & Auo' & _).
+      destruct (remove_leaf 10 s o oit K Go Do E1) as (K1 & U1 & o' & Go' & Lo' & Co' & Eclo' & Cho' & Auo' & _).
       assert (Nom : o <> m) by (intros ->; rewrite Hm in Go; injection Go as <-; contradiction).
       pose proof (proj2 (unload_keeps_ownership 12) s o Js (J_cls_fitcont _ _ Js (or_intror Co))) as Kp.
       split; [apply Kp|split; [exact K1|split; [apply U1|split; [|split; [|split; [|split]]]]]].
       4:{ intros j Nj. destruct U1 as (_ & G). apply G. congruence. }
-      4:{ intros o0 [= <-]. exists o'. auto. }
+      4:{ intros o0 [= <-]. exists o'. split; [exact Go'|split; [exact Cho'|split; [exact Auo'|]]]. unfold direct in *. now rewrite Eclo'. }
       + destruct U1 as (_ & G). rewrite (G m); [exact Hm|]. intros E. now apply Nom.
       + intros c cit Gc Hp. destruct (Nat.eq_dec c o) as [->|Nc].
         * rewrite Go' in Gc. injection Gc as <-. congruence.
@@ -576,15 +633,19 @@ Proof.
             KK (fst (add_item F s0 a (PCharge m))) /\ w_srcs (fst (add_item F s0 a (PCharge m))) = w_srcs (fst s0) /\
             (forall j, j <> a -> get_item (fst (add_item F s0 a (PCharge m))) j = get_item (fst s0) j) /\
             (exists ait', get_item (fst (add_item F s0 a (PCharge m))) a = Some ait' /\ i_cont ait' = Some (PCharge m) /\
-                          i_charge ait' = None /\ i_autos ait' = [])).
+                          i_charge ait' = None /\ i_autos ait' = []) /\
+            (forall x, get_item (fst (add_item F s0 a (PCharge m))) a = Some x -> ~ direct x)).
   { intros s0 a x J0 K0 G0 Hx Ca Hla Hea. destruct (cls_of_some' _ _ _ Ca) as (ait & Ga & Eca).
     assert (Da : ~ direct ait) by (apply direct_childcls; right; exact Eca).
     rewrite F_eq in *.
-    destruct (add_leaf 10 s0 a ait (PCharge m) K0 Ga Da (Hla ait Ga)) as (K' & (S' & G') & (ait' & Ga' & Ca' & _ & Cha' & Aua' & _)); try exact Hea.
+    destruct (add_leaf 10 s0 a ait (PCharge m) K0 Ga Da (Hla ait Ga)) as (K' & (S' & G') & (ait' & Ga' & Ca' & Ecla' & Cha' & Aua' & _)); try exact Hea.
     - intros y E. injection E as <-. exists x. now split.
     - intros y E. discriminate.
-    - split; [exact K'|split; [exact S'|split; [exact G'|]]]. exists ait'. auto. }
+    - split; [exact K'|split; [exact S'|split; [exact G'|split]]]; [exists ait'; auto|].
+      intros x0 Gx0. rewrite Ga' in Gx0. injection Gx0 as <-. unfold direct in *. now rewrite Ecla'. }
   pose proof (direct_cont_fit (fst s) m mit Js K Hm Hdm) as Hncm.
+  assert (St1 : structure (fst s1) = structure (fst s)) by (unfold s1; destruct old; [apply S_remove_item|reflexivity]).
+  assert (St2 : structure (fst s2) = structure (fst s)) by (unfold s2, lift; cbn [fst]; rewrite S_upd_item; exact St1).
   assert (Nold : forall o, old = Some o -> o <> m).
   { intros o Eo ->. destruct Js as (_ & _ & _ & J5). pose proof (J5 m mit m Hm Eo) as C. unfold cls_of in C. rewrite Hm in C.
     injection C as C. apply (proj2 (direct_childcls mit)); [right; exact C|exact Hdm]. }
@@ -592,13 +653,18 @@ Proof.
   2:{ cbn [fst]. intros He. pose proof (St12 He) as E1. destruct (H1 E1) as (J1 & K1 & S1 & G1 & Hno & _ & Fr1 & Old1).
       destruct (Store s1 mit None J1 K1 G1 Hdm Hno) as (_ & K2 & S2 & G2 & Fr2); [intros o E; discriminate|].
       fold s2 in S2, G2, Fr2.
-      split; [exact K2|split]; [apply (FLATs_srcs (fst s)); [|exact Fl]; congruence|].
-      apply (CP_relink (fst s) (fst s2) m mit None Cp Hm Hncm).
+      split; [exact K2|split; [|split]]; [apply (FLATs_srcs (fst s)); [|exact Fl]; congruence| |].
+      { apply (CP_relink (fst s) (fst s2) m mit None Cp Hm Hncm).
+        - intros j Nj No _. rewrite (Fr2 j Nj). now apply Fr1.
+        - eexists. split; [exact G2|]. split; reflexivity.
+        - intros o Eo _. destruct (Old1 o Eo) as (o' & Go' & X1 & X2 & _). exists o'. rewrite (Fr2 o (Nold o Eo)). auto.
+        - intros i0 [=].
+        - intros i0 [=]. }
+      apply (LS_relink (fst s) (fst s2) m mit None Ls (same_src_structure _ _ St2) Hm Hdm).
       - intros j Nj No _. rewrite (Fr2 j Nj). now apply Fr1.
       - eexists. split; [exact G2|]. split; reflexivity.
-      - intros o Eo _. destruct (Old1 o Eo) as (o' & Go' & X1 & X2). exists o'. rewrite (Fr2 o (Nold o Eo)). auto.
-      - intros i0 [=].
-      - intros i0 [=]. }
+      - intros o oit' [E|E] No Go; [|discriminate]. symmetry in E. destruct (Old1 o E) as (o' & Go' & _ & _ & Do').
+        rewrite (Fr2 o No) in Go. rewrite Go' in Go. injection Go as <-. exact Do'. }
   specialize (Hnew i eq_refl).
   destruct (has_container (fst s2) i) eqn:Hh; cbn [fst].
   - (* refused: the old charge comes back *)
@@ -660,24 +726,34 @@ Proof.
     destruct old as [o|] eqn:Eo.
     + intros He. pose proof (sticky_add _ _ _ _ He) as E3. destruct (Body E3) as (J3 & K3 & S3 & G3 & Ho & Fr3).
       destruct (Ho o eq_refl) as (Co3 & Lo3).
-      destruct (Add s3 o _ J3 K3 G3 eq_refl Co3 Lo3 He) as (K4 & S4 & Fr4 & New4).
-      split; [exact K4|split]; [apply (FLATs_srcs (fst s)); [congruence|exact Fl]|].
+      destruct (Add s3 o _ J3 K3 G3 eq_refl Co3 Lo3 He) as (K4 & S4 & Fr4 & New4 & Nd4).
+      assert (St3 : structure (fst s3) = structure (fst s)) by (unfold s3, lift; cbn [fst]; rewrite S_upd_item; exact St2).
       assert (Eom : i_charge mit = Some o) by exact Eo.
-      apply (CP_relink (fst s) _ m mit (Some o) Cp Hm Hncm).
+      split; [exact K4|split; [|split]]; [apply (FLATs_srcs (fst s)); [congruence|exact Fl]| |].
+      { apply (CP_relink (fst s) _ m mit (Some o) Cp Hm Hncm).
+        * intros j Nj No _. rewrite Fr4 by congruence. apply Fr3; [exact Nj|congruence].
+        * eexists. split; [rewrite (Fr4 m); [exact G3|]; intros E; symmetry in E; now apply (Nold o eq_refl)|]. split; reflexivity.
+        * intros o0 _ Hne. congruence.
+        * intros i0 [= <-]. exact New4.
+        * intros i0 _ Hne. congruence. }
+      apply (LS_relink (fst s) _ m mit (Some o) Ls); [apply same_src_structure; rewrite S_add_item; exact St3|exact Hm|exact Hdm| | |].
       * intros j Nj No _. rewrite Fr4 by congruence. apply Fr3; [exact Nj|congruence].
       * eexists. split; [rewrite (Fr4 m); [exact G3|]; intros E; symmetry in E; now apply (Nold o eq_refl)|]. split; reflexivity.
-      * intros o0 _ Hne. congruence.
-      * intros i0 [= <-]. exact New4.
-      * intros i0 _ Hne. congruence.
+      * intros o0 oit' [E|E] No0 Go0; assert (o0 = o) by congruence; subst o0; now apply (Nd4 oit').
     + intros He. destruct (Body He) as (J3 & K3 & S3 & G3 & _ & Fr3).
-      split; [exact K3|split]; [apply (FLATs_srcs (fst s)); [exact S3|exact Fl]|].
+      assert (St3 : structure (fst s3) = structure (fst s)) by (unfold s3, lift; cbn [fst]; rewrite S_upd_item; exact St2).
       assert (Eom : i_charge mit = None) by exact Eo.
-      apply (CP_relink (fst s) _ m mit None Cp Hm Hncm).
+      split; [exact K3|split; [|split]]; [apply (FLATs_srcs (fst s)); [exact S3|exact Fl]| |].
+      { apply (CP_relink (fst s) _ m mit None Cp Hm Hncm).
+        * intros j Nj _ _. apply Fr3; [exact Nj|discriminate].
+        * eexists. split; [exact G3|]. split; reflexivity.
+        * intros o0 E0. congruence.
+        * intros i0 [=].
+        * intros i0 [=]. }
+      apply (LS_relink (fst s) _ m mit None Ls (same_src_structure _ _ St3) Hm Hdm).
       * intros j Nj _ _. apply Fr3; [exact Nj|discriminate].
       * eexists. split; [exact G3|]. split; reflexivity.
-      * intros o0 E0. congruence.
-      * intros i0 [=].
-      * intros i0 [=].
+      * intros o0 oit' [E|E]; congruence.
   - intros He. pose proof (sticky_add _ _ _ _ He) as E2. pose proof (St12 E2) as E1.
     destruct (H1 E1) as (J1 & K1 & S1 & G1 & Hno & Ck1 & Fr1 & Old1).
     destruct (Store s1 mit (Some i) J1 K1 G1 Hdm Hno) as (J2 & K2 & S2 & G2 & Fr2).
@@ -690,16 +766,22 @@ Proof.
     assert (Nim : i <> m).
     { intros ->. unfold cls_of in Ci2. rewrite G2 in Ci2. injection Ci2 as C. cbn in C.
       apply (proj2 (direct_childcls mit)); [right; exact C|exact Hdm]. }
-    destruct (Add s2 i _ J2 K2 G2 eq_refl Ci2) as (K3 & S3 & Fr3 & New3); [|exact He|].
+    destruct (Add s2 i _ J2 K2 G2 eq_refl Ci2) as (K3 & S3 & Fr3 & New3 & Nd3); [|exact He|].
     + intros ait Ga. assert (Da : ~ direct ait).
       { apply direct_childcls. right. unfold cls_of in Ci2. rewrite Ga in Ci2. now injection Ci2. }
       apply (leaf_no_cont_unloaded (fst s2) i ait K2 Ga Da).
       unfold has_container in Hh. rewrite Ga in Hh. destruct (i_cont ait); [discriminate|reflexivity].
-    + split; [exact K3|split]; [apply (FLATs_srcs (fst s)); [congruence|exact Fl]|].
+    + split; [exact K3|split; [|split]]; [apply (FLATs_srcs (fst s)); [congruence|exact Fl]| |].
+      2:{ apply (LS_relink (fst s) _ m mit (Some i) Ls); [apply same_src_structure; rewrite S_add_item; exact St2|exact Hm|exact Hdm| | |].
+          - intros j Nj No Ni. rewrite Fr3 by congruence. rewrite (Fr2 j Nj). now apply Fr1.
+          - eexists. split; [rewrite (Fr3 m); [exact G2|]; intros E; now apply Nim|]. split; reflexivity.
+          - intros o0 oit' Hor No0 Go0. destruct (Nat.eq_dec o0 i) as [->|Noi]; [now apply (Nd3 oit')|].
+            destruct Hor as [E|E]; [|congruence]. symmetry in E. destruct (Old1 o0 E) as (o' & Go' & _ & _ & Do').
+            rewrite (Fr3 o0 Noi), (Fr2 o0 No0), Go' in Go0. injection Go0 as <-. exact Do'. }
       apply (CP_relink (fst s) _ m mit (Some i) Cp Hm Hncm).
       * intros j Nj No Ni. rewrite Fr3 by congruence. rewrite (Fr2 j Nj). now apply Fr1.
       * eexists. split; [rewrite (Fr3 m); [exact G2|]; intros E; now apply Nim|]. split; reflexivity.
-      * intros o Eo Hne. destruct (Old1 o Eo) as (o' & Go' & X1 & X2). exists o'.
+      * intros o Eo Hne. destruct (Old1 o Eo) as (o' & Go' & X1 & X2 & _). exists o'.
         rewrite Fr3 by congruence. rewrite (Fr2 o (Nold o Eo)). auto.
       * intros i0 [= <-]. exact New3.
       * intros i0 [= <-] Hne x xit Gx.
@@ -1128,12 +1210,12 @@ Qed.
 Theorem fleet_add_op_KJ s fl f : KJ (fst s) -> KJ (fst (fst (fleet_add_op s fl f))).
 Proof.
   intros R. unfold fleet_add_op. destruct (fit_fleet (fst s) f); [exact R|].
-  cbn [fst]. unfold emit_always, lift. cbn [fst]. eapply KJ_same_is; [apply same_is_fleet_link|exact R].
+  cbn [fst]. unfold emit_always, lift. cbn [fst]. eapply KJ_same_is; [apply same_isf_fleet_link|exact R].
 Qed.
 Lemma fleet_remove_one_KJ s fl f : KJ (fst s) -> KJ (fst (fleet_remove_one s fl f)).
 Proof.
   intros R. unfold fleet_remove_one, emit_always, lift. cbn [fst].
-  eapply KJ_same_is; [apply same_is_fleet_link|exact R].
+  eapply KJ_same_is; [apply same_isf_fleet_link|exact R].
 Qed.
 Theorem fleet_remove_op_KJ s fl f : KJ (fst s) -> KJ (fst (fst (fleet_remove_op s fl f))).
 Proof.
@@ -1158,14 +1240,15 @@ Theorem unload_KJ s i :
   KJ (fst (unload F s i)) /\ dir_unloaded (fst (unload F s i)) i /\
   (forall j, j <> i -> dir_unloaded (fst s) j -> dir_unloaded (fst (unload F s i)) j).
 Proof.
-  intros (R & K & Fl & Cp) He. pose proof (proj2 R) as Js.
+  intros (R & K & Fl & Cp & Ls) He. pose proof (proj2 R) as Js.
   assert (R' : RJ (fst (unload F s i))) by (now apply unload_RJ).
   rewrite F_eq in *.
   destruct (get_item (fst s) i) as [it|] eqn:Hi.
   - destruct (direct_dec it) as [D|D].
     + destruct (unload_dir 9 s i it Js K Hi D He) as (_ & K' & S' & (mi & Gi & Li & _) & Fr).
       pose proof (unload_dir_CP 9 s i it Js K Cp Hi D He) as Cp'.
-      split; [split; [exact R'|split; [exact K'|split; [apply (FLATs_srcs (fst s)); assumption|exact Cp']]]|split].
+      pose proof (unload_dir_LS 9 s i it Js K Ls Hi D He) as Ls'.
+      split; [split; [exact R'|split; [exact K'|split; [apply (FLATs_srcs (fst s)); assumption|split; [exact Cp'|exact Ls']]]]|split].
       * intros x Gx _. rewrite Gi in Gx. injection Gx as <-. exact Li.
       * intros j Nj Hj jit Gj Dj.
         destruct (in_dec Nat.eq_dec j (map snd (i_autos it))) as [I|NI].
@@ -1179,7 +1262,10 @@ Proof.
     + destruct (unload_leaf 11 s i it K Hi D He) as (K' & (S' & Go) & (ci & Gci & _ & Vci & _)).
       assert (Cp' : CP (fst (unload 12 s i))).
       { apply (CP_same_l (fst s)); [|exact Cp]. apply (same_l_upd1_view (fst s) _ i it ci (conj S' Go) Hi Gci Vci). }
-      split; [split; [exact R'|split; [exact K'|split; [apply (FLATs_srcs (fst s)); assumption|exact Cp']]]|split].
+      assert (Ls' : LS (fst (unload 12 s i))).
+      { apply (LS_upd1_leaf (fst s) _ i ci Ls (conj S' Go) (S_unload _ s i) Gci).
+        unfold view in Vci. assert (Ecx : i_cls ci = i_cls it) by congruence. unfold direct in *. now rewrite Ecx. }
+      split; [split; [exact R'|split; [exact K'|split; [apply (FLATs_srcs (fst s)); assumption|split; [exact Cp'|exact Ls']]]]|split].
       * intros x Gx Dx. exfalso.
         pose proof (unload_KEEP 12 s i (proj2 R)) as (_ & _ & _ & Ck).
         assert (C : cls_of (fst s) i = Some (i_cls it)) by (unfold cls_of; now rewrite Hi).
@@ -1190,136 +1276,30 @@ Proof.
 Qed.
 
 (* creating autocharges for m leaves every other directly held item as it was (new items are autocharges) *)
-Lemma autos_fold_direct n t m : forall (l : list (Z * effect)) (s : st) (mit : item),
-  J (fst s) -> KK (fst s) -> get_item (fst s) m = Some mit -> direct mit -> i_loaded mit <> None ->
-  NoDup (map fst l) -> (forall e, In e (map fst l) -> al_get zeqb (i_autos mit) e = None) ->
-  (forall e ef aa q, In (e, ef) l -> e_autocharge_attr ef = Some aa -> al_get zeqb (t_attrs t) aa = Some q ->
-                     NAtid (fst s) (q_trunc q)) ->
-  w_err (fst (fold_left (auto_stepf (S (S n)) t m) l s)) = None ->
-  forall j jit, get_item (fst (fold_left (auto_stepf (S (S n)) t m) l s)) j = Some jit -> direct jit -> j <> m ->
-                get_item (fst s) j = Some jit.
-Proof.
-  induction l as [|[e ef] l IH]; intros s mit Js K Hm Dm Hld Hnd Hk Hna He j jit Gj Dj Nj; cbn [fold_left] in *.
-  - exact Gj.
-  - inversion Hnd as [|? ? Ne Hnd']; subst.
-    set (s1 := auto_stepf (S (S n)) t m s (e, ef)) in *.
-    assert (He1 : w_err (fst s1) = None).
-    { revert He. apply (C_fold sticky sticky_refl sticky_trans). intros; apply auto_stepf_sticky. }
-    (* one step, as in autos_fold *)
-    assert (Step : J (fst s1) /\ KK (fst s1) /\ w_srcs (fst s1) = w_srcs (fst s) /\
-                   (exists mit1, get_item (fst s1) m = Some mit1 /\ mk mit1 = mk mit /\
-                                 (forall e', e' <> e -> al_get zeqb (i_autos mit1) e' = al_get zeqb (i_autos mit) e')) /\
-                   (forall x xit, get_item (fst s1) x = Some xit -> direct xit -> x <> m -> get_item (fst s) x = Some xit)).
-    { unfold s1, auto_stepf in *. cbn [snd fst] in *. destruct (e_autocharge_attr ef) as [aa|] eqn:Ea.
-      - destruct (al_get zeqb (t_attrs t) aa) as [q|] eqn:Eq.
-        + cbv zeta in *.
-          assert (Hk0 : al_get zeqb (i_autos mit) e = None) by (apply Hk; now left).
-          assert (Hn0 : NAtid (fst s) (q_trunc q)) by (apply (Hna e ef aa q); [now left|exact Ea|exact Eq]).
-          destruct (new_auto_step n s m mit e (q_trunc q) Js K Hm Dm Hld Hk0 Hn0 He1) as (J1 & K1 & S1 & G1 & F1 & _).
-          split; [exact J1|split; [exact K1|split; [exact S1|split]]].
-          * eexists. split; [exact G1|]. split; [reflexivity|]. intros e' Ne'. cbn [i_autos it_set_autos].
-            now apply al_get_set_other_z.
-          * intros x xit Gx Dx Nx. destruct (Nat.eq_dec x (w_next (fst s))) as [->|Nxa].
-            -- exfalso. destruct J1 as (_ & _ & J4 & _).
-               assert (Ia : In (e, w_next (fst s)) (al_set zeqb (i_autos mit) e (w_next (fst s)))).
-               { clear -Hk0. induction (i_autos mit) as [|[k0 v0] r IHr]; cbn; [now left|].
-                 cbn in Hk0. destruct (zeqb e k0); [discriminate|]. right. now apply IHr. }
-               pose proof (J4 m _ e (w_next (fst s)) G1 Ia) as C. unfold cls_of in C. rewrite Gx in C. injection C as C.
-               apply (proj2 (direct_childcls xit)); [left; exact C|exact Dx].
-            -- rewrite <- (F1 x Nx Nxa). exact Gx.
-        + split; [exact Js|split; [exact K|split; [reflexivity|split; [exists mit; auto|auto]]]].
-      - split; [exact Js|split; [exact K|split; [reflexivity|split; [exists mit; auto|auto]]]]. }
-    destruct Step as (J1 & K1 & S1 & (mit1 & G1 & M1 & A1) & F1).
-    assert (Dm1 : direct mit1) by (unfold mk in M1; unfold direct in *; assert (i_cls mit1 = i_cls mit) by congruence; congruence).
-    assert (Hld1 : i_loaded mit1 <> None) by (unfold mk in M1; assert (i_loaded mit1 = i_loaded mit) by congruence; congruence).
-    apply (F1 j jit); [|exact Dj|exact Nj].
-    apply (IH s1 mit1 J1 K1 G1 Dm1 Hld1 Hnd'); try assumption.
-    + intros e' I. rewrite A1; [apply Hk; now right|]. intros ->. apply Ne. exact I.
-    + intros e' ef' aa q I Ha Hq. apply (NAtid_srcs (fst s) (fst s1) _ S1). apply (Hna e' ef' aa q); [now right|exact Ha|exact Hq].
-Qed.
-
-Theorem load_dir_frame n s m mit :
-  J (fst s) -> KK (fst s) -> get_item (fst s) m = Some mit -> direct mit -> i_loaded mit = None ->
-  auto_ok (fst s) (i_tid mit) ->
-  w_err (fst (load (S (S (S n))) s m)) = None ->
-  forall j jit, get_item (fst (load (S (S (S n))) s m)) j = Some jit -> direct jit -> j <> m ->
-                get_item (fst s) j = Some jit.
-Proof.
-  intros Js K Hm Dm Hl Hok.
-  cbn [load]. rewrite Hm.
-  destruct (item_fit (fst s) m) as [f|] eqn:Ef; [|intros _ j jit G _ _; exact G].
-  destruct (fit_source_id (fst s) f) as [src|] eqn:Esrc; [|intros _ j jit G _ _; exact G].
-  destruct (get_src (fst s) src) as [u|] eqn:Eu; [|intros _ j jit G _ _; exact G].
-  destruct (get_type u (i_tid mit)) as [t|] eqn:Et; [|intros _ j jit G _ _; exact G].
-  cbv zeta.
-  set (ld := it_set_loaded mit (Some src)).
-  set (s1 := lift s (fun w => put_item w m ld)).
-  pose proof (kk_au _ K m mit Hm Hl) as Au0.
-  assert (Hnc : forall y, i_cont mit <> Some (PCharge y) /\ i_cont mit <> Some (PAuto y))
-    by (apply (direct_cont_fit (fst s) m mit Js K Hm Dm)).
-  assert (K1 : KK (fst s1)).
-  { unfold s1, lift. cbn [fst]. apply (KK_direct_put (fst s) m mit ld Js K Hm Dm); try reflexivity.
-    - exact Hnc.
-    - intros Hx. discriminate.
-    - intros c cit Gc Hp. destruct (kk_pc _ K c cit m Gc) as (P1 & _). destruct (P1 Hp) as (x & Gx & Hx).
-      rewrite Hm in Gx. injection Gx as <-. exact Hx.
-    - intros c cit Gc Hp. destruct (kk_pc _ K c cit m Gc) as (_ & P2). destruct (P2 Hp) as (x & Gx & Hx).
-      rewrite Hm in Gx. injection Gx as <-. exact Hx.
-    - intros Hf c cit Gc Hp. apply (children_of_detached_unloaded (fst s) m mit c cit Js K Hm Dm Hf Gc Hp). }
-  assert (J1 : J (fst s1)).
-  { unfold s1, lift. cbn [fst]. apply (J_put_keepcls (fst s) m mit ld Js Hm eq_refl).
-    - intros C. exfalso. apply (proj2 (direct_childcls mit)); [exact C|exact Dm].
-    - intros e a I. destruct Js as (_ & _ & J4 & _). apply (J4 m mit e a Hm I).
-    - intros o Ho. destruct Js as (_ & _ & _ & J5). apply (J5 m mit o Hm Ho). }
-  assert (G1 : get_item (fst s1) m = Some ld) by (unfold s1, lift; cbn [fst]; apply get_put_item_same').
-  set (s2 := with_msgs s1 f (fun w => item_loaded_msgs w m)).
-  assert (RO : run_only (fst s1) (fst s2) m).
-  { unfold s2, with_msgs. pose proof (loaded_run_only (fst s1) m) as H. destruct (item_loaded_msgs (fst s1) m). exact H. }
-  assert (F2 : FC (fst s1) (fst s2)).
-  { unfold s2, with_msgs. pose proof (FC_item_loaded_msgs (fst s1) m) as H. destruct (item_loaded_msgs (fst s1) m). exact H. }
-  pose proof (FC_J _ _ F2 J1) as J2.
-  pose proof (KK_same_k _ _ (same_k_run_only_direct _ _ m ld RO G1 Dm) K1) as K2.
-  destruct RO as (U2 & R2 & _). destruct (R2 ld G1) as (r & G2). rewrite G2.
-  set (mit2 := it_set_running ld r) in *.
-  change (fold_left _ (item_effects (fst s2) mit2) s2) with (fold_left (auto_stepf (S (S n)) t m) (item_effects (fst s2) mit2) s2).
-  intros He j jit Gj Dj Nj.
-  assert (S12 : w_srcs (fst s2) = w_srcs (fst s)) by (destruct U2 as (S2 & _); rewrite S2; reflexivity).
-  assert (Ety : item_type (fst s2) mit2 = Some t).
-  { unfold item_type. cbn [i_loaded mit2 ld it_set_running it_set_loaded i_tid]. unfold get_src in *. rewrite S12, Eu. exact Et. }
-  assert (Eun : item_universe (fst s2) mit2 = Some u).
-  { unfold item_universe. cbn [i_loaded mit2 ld it_set_running it_set_loaded]. unfold get_src in *. now rewrite S12. }
-  destruct (Hok src u t Eu Et) as (Hnd & Hauto).
-  assert (G3 : get_item (fst s2) j = Some jit).
-  { apply (autos_fold_direct n t m (item_effects (fst s2) mit2) s2 mit2 J2 K2 G2 Dm); try assumption.
-    - cbn. discriminate.
-    - apply (item_effects_keys_nodup _ _ t Ety Hnd).
-    - intros e _. cbn [i_autos mit2 ld it_set_running it_set_loaded]. now rewrite Au0.
-    - intros e ef aa q I Ha Hq. apply item_effects_in in I as (t' & u' & Ht' & Hu' & It & Ge).
-      rewrite Ety in Ht'. injection Ht' as <-. rewrite Eun in Hu'. injection Hu' as <-.
-      apply (NAtid_srcs (fst s) (fst s2) _ S12). apply (Hauto e ef aa q It Ge Ha Hq). }
-  destruct U2 as (_ & Gx). rewrite (Gx j Nj) in G3. unfold s1, lift in G3. cbn [fst] in G3.
-  now rewrite get_put_item_other in G3.
-Qed.
 
 Theorem load_KJ s i :
   KJ (fst s) -> dir_unloaded (fst s) i -> w_err (fst (load F s i)) = None ->
   KJ (fst (load F s i)) /\
   (forall j, j <> i -> dir_unloaded (fst s) j -> dir_unloaded (fst (load F s i)) j).
 Proof.
-  intros (R & K & Fl & Cp) Hu He. pose proof (proj2 R) as Js.
+  intros (R & K & Fl & Cp & Ls) Hu He. pose proof (proj2 R) as Js.
   assert (R' : RJ (fst (load F s i))) by (now apply load_RJ).
   rewrite F_eq in *.
   destruct (get_item (fst s) i) as [it|] eqn:Hi.
   - destruct (direct_dec it) as [D|D].
     + pose proof (Hu it Hi D) as Hl.
       destruct (load_dir 9 s i it Js K Cp Hi D Hl (Fl (i_tid it)) He) as (_ & K' & S' & _ & _ & Cp').
-      split; [split; [exact R'|split; [exact K'|split; [apply (FLATs_srcs (fst s)); assumption|exact Cp']]]|].
+      pose proof (load_dir_LS 9 s i it Js K Cp Ls Hi D Hl (Fl (i_tid it)) He) as Ls'.
+      split; [split; [exact R'|split; [exact K'|split; [apply (FLATs_srcs (fst s)); assumption|split; [exact Cp'|exact Ls']]]]|].
       intros j Nj Hj jit Gj Dj.
       pose proof (load_dir_frame 9 s i it Js K Hi D Hl (Fl (i_tid it)) He j jit Gj Dj Nj) as G0. now apply (Hj jit).
     + destruct (load_leaf 11 s i it K Hi D He) as (K' & (S' & Go) & (ci & Gci & Vci & _)).
       assert (Cp' : CP (fst (load 12 s i))).
       { apply (CP_same_l (fst s)); [|exact Cp]. apply (same_l_upd1_view (fst s) _ i it ci (conj S' Go) Hi Gci Vci). }
-      split; [split; [exact R'|split; [exact K'|split; [apply (FLATs_srcs (fst s)); assumption|exact Cp']]]|].
+      assert (Ls' : LS (fst (load 12 s i))).
+      { apply (LS_upd1_leaf (fst s) _ i ci Ls (conj S' Go) (S_load _ s i) Gci).
+        unfold view in Vci. assert (Ecx : i_cls ci = i_cls it) by congruence. unfold direct in *. now rewrite Ecx. }
+      split; [split; [exact R'|split; [exact K'|split; [apply (FLATs_srcs (fst s)); assumption|split; [exact Cp'|exact Ls']]]]|].
       intros j Nj Hj jit Gj Dj. rewrite (Go j Nj) in Gj. now apply (Hj jit).
   - exfalso. revert He. cbn [load]. rewrite Hi. unfold lift. cbn [fst]. intros H. exact (err_fail_none _ _ H).
 Qed.
@@ -1381,38 +1361,117 @@ Proof.
   apply unload_list_KJ.
 Qed.
 
+(* ------------------------------------------------------------------ *)
+(* linking a fit to a solar system and back                             *)
+
+Lemma KJ_same_is_ls w w' : same_is w w' -> LS w' -> KJ w -> KJ w'.
+Proof.
+  intros S L' (R & K & Fl & Cp & _).
+  split; [eapply RJ_same_is; eauto|split; [eapply KK_same_is; eauto|split; [|split; [|exact L']]]].
+  - apply (FLATs_srcs w w'); [apply S|exact Fl].
+  - apply (CP_same_l w w'); [apply same_l_items; apply S|exact Cp].
+Qed.
+
+Lemma ss_set_fits_src w x l f : fit_source_id (ss_set_fits w x l) f = fit_source_id w f.
+Proof.
+  unfold ss_set_fits. destruct (get_ss w x) as [y|] eqn:Gy; [|apply same_src_fail].
+  unfold fit_source_id, fit_solsys, get_fit, get_ss, put_ss. cbn [w_fits set_sss w_ss].
+  destruct (match al_get neqb (w_fits w) f with Some ft => f_solsys ft | None => None end) as [z|]; [|reflexivity].
+  destruct (Nat.eq_dec z x) as [->|N].
+  - rewrite al_get_set_same. unfold get_ss in Gy. now rewrite Gy.
+  - rewrite al_get_set_other by congruence. reflexivity.
+Qed.
+Lemma link_src_other w x l f g f' :
+  f' <> f -> fit_source_id (upd_fit (ss_set_fits w x l) f g) f' = fit_source_id w f'.
+Proof.
+  intros N. rewrite <- (ss_set_fits_src w x l f'). set (w0 := ss_set_fits w x l).
+  unfold upd_fit. destruct (get_fit w0 f) as [ft|]; [|apply same_src_fail].
+  unfold fit_source_id, fit_solsys, get_fit, put_fit. cbn [w_fits set_fits w_ss]. now rewrite al_get_set_other by congruence.
+Qed.
+Lemma link_src_none w x l f : fit_source_id (upd_fit (ss_set_fits w x l) f (fun ft => fit_set_solsys ft None)) f = None.
+Proof.
+  set (w0 := ss_set_fits w x l). unfold upd_fit. destruct (get_fit w0 f) as [ft|] eqn:Gf.
+  - unfold fit_source_id, fit_solsys, get_fit, put_fit. cbn [w_fits set_fits]. now rewrite al_get_set_same.
+  - rewrite (same_src_fail w0 EKeyAbsent f). unfold fit_source_id, fit_solsys. now rewrite Gf.
+Qed.
+
+(* a directly held item whose container reference names a container of fit f is in the item list of f *)
+Lemma cmem_top ft p j : In j (cmem ft p) -> In j (fit_top_items ft).
+Proof.
+  unfold fit_top_items. destruct p as [f k|f k|f k|y|y]; cbn [cmem]; try (intros []);
+    destruct k; cbn [fit_slot fit_setc fit_rack]; rewrite !in_app_iff; tauto.
+Qed.
+Lemma members_fit_list w p f j : pfit p = Some f -> In j (members w p) -> In j (fit_list w f).
+Proof.
+  intros Hp. unfold members, fit_list. rewrite Hp. destruct (get_fit w f) as [ft|]; [|intros []].
+  intros I. unfold fit_items. apply in_flat_map. exists j. split; [eapply cmem_top; eauto|now left].
+Qed.
+Lemma fit_of_place_fitcont it f : fit_of_place (i_cont it) = Some f ->
+  exists p, fitcont_of it = Some p /\ pfit p = Some f.
+Proof.
+  unfold fit_of_place, fitcont_of. destruct (i_cont it) as [[a b|a b|a b|y|y]|]; try discriminate; intros [= ->]; eexists; split; reflexivity.
+Qed.
+Lemma listed_of_cont w j jit f :
+  CI w -> get_item w j = Some jit -> fit_of_place (i_cont jit) = Some f -> In j (fit_list w f).
+Proof.
+  intros (_ & M & _) G E. destruct (fit_of_place_fitcont jit f E) as (p & Ep & Hp).
+  apply (members_fit_list w p f j Hp). apply M. unfold fitcont. now rewrite G.
+Qed.
+
 Theorem solsys_add_op_KJ s x f :
   KJ (fst s) ->
   (let w1 := upd_fit (ss_set_fits (fst s) x (set_add neqb (ss_fit_list (fst s) x) f)) f (fun ft => fit_set_solsys ft (Some x)) in
    NoDup (fit_list w1 f) /\ forall j, In j (fit_list w1 f) -> dir_unloaded w1 j) ->
   w_err (fst (fst (solsys_add_op s x f))) = None -> KJ (fst (fst (solsys_add_op s x f))).
 Proof.
-  intros R Hyp. unfold solsys_add_op. destruct (fit_solsys (fst s) f); [auto|]. cbn [fst].
+  intros R Hyp. unfold solsys_add_op. destruct (fit_solsys (fst s) f) eqn:Efs; [auto|]. cbn [fst].
   cbv zeta in Hyp. destruct Hyp as (Hn & Hu).
   set (s1 := lift s _).
   assert (R1 : KJ (fst s1)).
-  { unfold s1, lift. cbn [fst]. eapply KJ_same_is; [apply same_is_solsys_link|exact R]. }
+  { unfold s1, lift. cbn [fst]. eapply KJ_same_is_ls; [apply same_is_solsys_link| |exact R].
+    (* the fit had no solar system, so nothing of it was loaded; every other fit sees the source it saw *)
+    destruct R as (_ & _ & _ & _ & Ls). intros j jit src G D El.
+    rewrite (same_is_get _ _ j (same_is_solsys_link _ _ _ _ _)) in G.
+    destruct (Ls j jit src G D El) as (f' & Ef & Es). exists f'. split; [exact Ef|].
+    rewrite link_src_other; [exact Es|]. intros ->. unfold fit_source_id in Es. rewrite Efs in Es. discriminate. }
   intros He. now apply (load_fit_items_KJ s1 f R1 Hn Hu He).
 Qed.
 
 Lemma solsys_remove_one_KJ s x f :
-  KJ (fst s) -> w_err (fst (solsys_remove_one s x f)) = None -> KJ (fst (solsys_remove_one s x f)).
+  KJ (fst s) -> CI (fst s) -> w_err (fst (solsys_remove_one s x f)) = None -> KJ (fst (solsys_remove_one s x f)).
 Proof.
-  intros R. unfold solsys_remove_one, lift. cbn [fst]. intros He.
+  intros R C. unfold solsys_remove_one, lift. cbn [fst]. intros He.
   pose proof (sticky_solsys_link _ _ _ _ _ He) as E1.
-  eapply KJ_same_is; [apply same_is_solsys_link|]. now apply unload_fit_items_KJ.
+  destruct (unload_fit_items_KJ s f R E1) as (R1 & Hu).
+  eapply KJ_same_is_ls; [apply same_is_solsys_link| |exact R1].
+  (* everything of the fit was unloaded; every other fit sees the source it saw *)
+  pose proof R1 as (_ & _ & _ & _ & Ls1). intros j jit src G D El.
+  rewrite (same_is_get _ _ j (same_is_solsys_link _ _ _ _ _)) in G.
+  destruct (Ls1 j jit src G D El) as (f' & Ef & Es). exists f'. split; [exact Ef|].
+  destruct (Nat.eq_dec f' f) as [->|N]; [|now rewrite link_src_other].
+  exfalso. pose proof (unload_fit_items_MK s f (proj1 C)) as (Kp & _). destruct Kp as (Fc & _).
+  (* j names a container of f now, so it did before, so it was listed and has been unloaded *)
+  destruct (fit_of_place_fitcont jit f Ef) as (p & Ep & Hp).
+  assert (Fj : fitcont (fst s) j = Some p) by (rewrite <- Fc; unfold fitcont; now rewrite G).
+  assert (Ij : In j (fit_list (fst s) f)).
+  { apply (members_fit_list (fst s) p f j Hp). destruct C as (_ & M & _). now apply M. }
+  pose proof (Hu j (or_introl Ij) jit G D) as Hl. congruence.
 Qed.
 Theorem solsys_remove_op_KJ s x f :
-  KJ (fst s) -> w_err (fst (fst (solsys_remove_op s x f))) = None -> KJ (fst (fst (solsys_remove_op s x f))).
+  KJ (fst s) -> CI (fst s) -> w_err (fst (fst (solsys_remove_op s x f))) = None -> KJ (fst (fst (solsys_remove_op s x f))).
 Proof.
-  intros R. unfold solsys_remove_op. destruct (mem neqb _ f); cbn [negb fst]; [|auto].
+  intros R C. unfold solsys_remove_op. destruct (mem neqb _ f); cbn [negb fst]; [|auto].
   now apply solsys_remove_one_KJ.
 Qed.
 Theorem solsys_clear_op_KJ s x :
-  KJ (fst s) -> w_err (fst (fst (solsys_clear_op s x))) = None -> KJ (fst (fst (solsys_clear_op s x))).
+  KJ (fst s) -> CI (fst s) -> w_err (fst (fst (solsys_clear_op s x))) = None -> KJ (fst (fst (solsys_clear_op s x))).
 Proof.
-  intros R. unfold solsys_clear_op. cbn [fst].
-  apply KJ_fold_err; [intros; apply solsys_remove_one_sticky|intros; now apply solsys_remove_one_KJ|exact R].
+  intros R C. unfold solsys_clear_op. cbn [fst]. generalize (ss_fit_list (fst s) x). intros l. revert s R C.
+  induction l as [|f l IH]; intros s R C He; cbn [fold_left] in *; [exact R|].
+  assert (He1 : w_err (fst (solsys_remove_one s x f)) = None).
+  { revert He. apply (C_fold sticky sticky_refl sticky_trans). intros; apply solsys_remove_one_sticky. }
+  apply IH; [now apply solsys_remove_one_KJ| |exact He].
+  apply (CI_MK (fst s)); [exact C|]. apply solsys_remove_one_MK. apply C.
 Qed.
 
 (* loading keeps who is whose charge, so the item lists of the fits stay what they are *)
@@ -1442,8 +1501,8 @@ Qed.
 Lemma load_charge_kept s i :
   KJ (fst s) -> dir_unloaded (fst s) i -> w_err (fst (load F s i)) = None -> charge_kept (fst s) (fst (load F s i)).
 Proof.
-  intros (R & K & Fl & Cp) Hu He. pose proof (proj2 R) as Js.
-  destruct (load_KJ s i (conj R (conj K (conj Fl Cp))) Hu He) as ((R' & K' & _) & _).
+  intros (R & K & Fl & Cp & Ls) Hu He. pose proof (proj2 R) as Js.
+  destruct (load_KJ s i (conj R (conj K (conj Fl (conj Cp Ls)))) Hu He) as ((R' & K' & _) & _).
   rewrite F_eq in *.
   destruct (get_item (fst s) i) as [it|] eqn:Hi.
   - destruct (direct_dec it) as [D|D].
@@ -1528,16 +1587,17 @@ Qed.
 
 Theorem source_set_op_KJ s x new :
   KJ (fst s) ->
+  (forall y, get_ss (fst s) x = Some y -> onat_eqb (ss_source y) new = false -> LS (fst (src_mid s x y new))) ->
   (forall y, get_ss (fst s) x = Some y -> new <> None ->
      let m := fst (src_mid s x y new) in
      NoDup (flat_map (fit_list m) (ss_fit_list m x)) /\
      forall j, In j (flat_map (fit_list m) (ss_fit_list m x)) -> dir_unloaded m j) ->
   w_err (fst (fst (source_set_op s x new))) = None -> KJ (fst (fst (source_set_op s x new))).
 Proof.
-  intros R Hyp. unfold source_set_op. destruct (get_ss (fst s) x) as [y|] eqn:Gy;
+  intros R HypL Hyp. unfold source_set_op. destruct (get_ss (fst s) x) as [y|] eqn:Gy;
     [|cbn [fst]; unfold lift; cbn [fst]; intros He; destruct (err_fail_none _ _ He)].
-  specialize (Hyp y eq_refl).
-  destruct (onat_eqb (ss_source y) new); [auto|].
+  specialize (Hyp y eq_refl). specialize (HypL y eq_refl).
+  destruct (onat_eqb (ss_source y) new); [auto|]. specialize (HypL eq_refl).
   match goal with |- context[if ?b then (s, RExn XUnknownSource) else _] => destruct b end; [auto|]. cbn [fst].
   change (lift (match ss_source y with Some _ => fold_left unload_fit_items (ss_fits y) s | None => s end)
                (fun w => match get_ss w x with Some y0 => put_ss w x (mkSolsys new (ss_fits y0)) | None => fail w EKeyAbsent end))
@@ -1555,6 +1615,6 @@ Proof.
     assert (E2 : w_err (fst (src_mid s x y (Some sid))) = None).
     { exact (C_fold sticky sticky_refl sticky_trans load_fit_items _ load_fit_items_sticky _ He). }
     apply load_fits_KJ; [|exact Hn|exact Hu|exact He].
-    eapply KJ_same_is; [exact S12|]. apply H1. now apply K12.
-  - intros He. eapply KJ_same_is; [exact S12|]. apply H1. now apply K12.
+    eapply KJ_same_is_ls; [exact S12|exact HypL|]. apply H1. now apply K12.
+  - intros He. eapply KJ_same_is_ls; [exact S12|exact HypL|]. apply H1. now apply K12.
 Qed.
